@@ -172,6 +172,8 @@ pub fn check_graph(
             kind
           );
           let expected = refwalk::ref_walk(graph, &roots, &ro);
+          // from here on a hang is the walk's
+          crate::runner::set_phase(crate::runner::PHASE_COVERED);
           // real walk with the skip set
           let mut got: Vec<Yield> = Vec::new();
           let mut it = graph.walk(roots.iter(), wo());
@@ -248,6 +250,7 @@ pub fn check_graph(
       }
     }
   }
+  crate::runner::set_phase(0);
 }
 
 fn ykind(y: &Yield) -> &'static str {
